@@ -8,7 +8,7 @@ Four layers, each usable on its own:
    `space` property, `observe`, the `default_observation` built in `__init__`).  It produces a **Tree**: a list of store
    events (key path, presence condition, leaf expression with locals substituted).  Keys come from dict literals,
    `spaces.Dict({...})`, `{**x}`, `D[k] = v`, `D.update({...})`, dict comprehensions and `for` loops; loop variables are
-   replaced by canonical pseudo-names (`<i@self.services>`), so `{i + 1: s.space for i, s in enumerate(self.services)}`
+   replaced by canonical pseudo-names (`index[self.services]`, `each[self.services]`), so `{i + 1: s.space for i, s in enumerate(self.services)}`
    and a `for` loop writing `obs[j + 1]` give the same slot family.
 3. *SchemaModel* - `describe_state` of every simulator class evaluated to a Tree (following `super().describe_state()`
    along the MRO of the concrete class and explicit `Base.describe_state(self)` calls); leaf producers are given an
@@ -583,6 +583,9 @@ class DictBuilder:
             self.store(tree, (), v, self.conds)
             if is_attr:
                 self.attr_stores.append((name, self.conds, self.subst(value), stmt))
+            elif isinstance(value, ast.Dict):
+                # keep the literal as a value alternative too: `d = {...}` followed by a conditional `d = state[...]`
+                self.bind(name, self.subst(value))
             else:
                 self.env.pop(name, None)
             return
